@@ -322,6 +322,7 @@ func runGroup(g []row, slow bool) error {
 		reqTO, ctxTO, waitTO = 45*time.Second, 50*time.Second, 45*time.Second
 	}
 	var again []row
+	tainted := false
 	bases()
 	r0 := g[0]
 	cap := &capture{fr: map[string][][]byte{}}
@@ -370,6 +371,11 @@ func runGroup(g []row, slow bool) error {
 	// C38: the maximum body size of both instances is the specification's
 	_, _, _, mbC, okC := uasc.VerifActive(p.Client)
 	_, _, _, mbS, okS := uasc.VerifActive(p.Server)
+	// the server installs its instance after it has sent the OPN response: the client's Open may return first
+	for i := 0; i < 300 && !okS; i++ {
+		time.Sleep(10 * time.Millisecond)
+		_, _, _, mbS, okS = uasc.VerifActive(p.Server)
+	}
 	if !okC || !okS {
 		return fmt.Errorf("no active instance")
 	}
@@ -478,12 +484,15 @@ func runGroup(g []row, slow bool) error {
 			if serr != nil && derr == "" {
 				derr = "SendRequest: " + serr.Error()
 			}
-			if !slow && timeoutish(derr) {
-				again = append(again, r)
-				continue
+			if timeoutish(derr) {
+				tainted = true // a late message of this row may still arrive on this pair
+				if !slow {
+					again = append(again, g[i:]...)
+					break
+				}
 			}
 			end(r, "c2s", ev0, derr == "" && bytes.Equal(delivered, payload(L, salt)))
-			judge(r, "c2s", cls("c2s"), frames, payload(L, salt), delivered, derr, haveKeys, sp, kc)
+			judge(r, "c2s", cls("c2s"), frames, payload(L, salt), delivered, derr, haveKeys, sp, kc, tainted)
 			if *prop == "C08" && haveKeys {
 				doInject(r, p, sl, "c2s", cls("c2s-ref"), frames, sp, kc, payload(L, salt))
 			}
@@ -518,30 +527,33 @@ func runGroup(g []row, slow bool) error {
 				derr = "client channel: " + serr.Error()
 			}
 			frames := msgFrames(cap.since("s2c", mark))
-			if !slow && timeoutish(derr) {
-				again = append(again, r)
-				continue
+			if timeoutish(derr) {
+				tainted = true
+				if !slow {
+					again = append(again, g[i:]...)
+					break
+				}
 			}
 			end(r, "s2c", ev0, derr == "" && bytes.Equal(delivered, payload(L, salt)))
-			judge(r, "s2c", cls("s2c"), frames, payload(L, salt), delivered, derr, haveKeys, sp, ks)
+			judge(r, "s2c", cls("s2c"), frames, payload(L, salt), delivered, derr, haveKeys, sp, ks, tainted)
 			if *prop == "C08" && haveKeys {
 				doInject(r, p, sl, "s2c", cls("s2c-ref"), frames, sp, ks, payload(L, salt))
 			}
 		}
 	}
-	if *prop == "C08" && haveKeys && !slow && !tooMany(id(r0, "", "")) {
-		renewScenario(g, p, sl, cap, sp, ks)
-	}
-	for _, r := range again {
-		// a time-out on the first attempt is not a verdict: once more, alone, on a fresh pair, with generous slack
+	if len(again) > 0 {
+		// a time-out on the first attempt is not a verdict, and the pair may still deliver the late message:
+		// the row and the rest of the group once more on a fresh pair, with generous slack
 		var err error
 		for try := 0; try < 2; try++ {
-			if err = runGroup([]row{r}, true); err == nil {
+			if err = runGroup(again, true); err == nil {
 				break
 			}
 		}
 		if err != nil {
-			vfgo.Inconclusive(id(r, "both", ""), "retry could not be driven: "+err.Error())
+			for _, r := range again {
+				vfgo.Inconclusive(id(r, "both", ""), "retry could not be driven: "+err.Error())
+			}
 		}
 	}
 	return nil
@@ -618,7 +630,7 @@ func msgFrames(fr [][]byte) [][]byte {
 // chunk <= chunk size, MessageSize = length, kinds C..CF, ciphertext block aligned, the peer
 // delivers the identical message; with the reference codec (C08) every chunk is opened and its
 // layout record is returned for validation by TLC.
-func judge(r row, dir, class string, frames [][]byte, sent, delivered []byte, derr string, haveKeys bool, sp refcodec.SymParams, k refcodec.Keys) {
+func judge(r row, dir, class string, frames [][]byte, sent, delivered []byte, derr string, haveKeys bool, sp refcodec.SymParams, k refcodec.Keys, tainted bool) {
 	c := id(r, dir, "gopcua")
 	obs := map[string]any{"chunks": len(frames), "lens": lens(frames)}
 	exact := len(frames) == len(r.Chunks)
@@ -702,6 +714,10 @@ func judge(r row, dir, class string, frames [][]byte, sent, delivered []byte, de
 	}
 	if derr != "" {
 		violation(c, class, "peer-does-not-deliver", fmt.Sprintf("body %d (%d chunks %s): %s", r.N, len(frames), lens(frames), derr))
+		return
+	}
+	if !bytes.Equal(sent, delivered) && tainted {
+		vfgo.Inconclusive(c, "payload differs, but an earlier exchange on this pair timed out: a late message of that exchange may have been taken for this one")
 		return
 	}
 	if !bytes.Equal(sent, delivered) {
